@@ -2,7 +2,10 @@
    E <k> {<pattern> <method>}*k <reg> <nn> {<name>}*nn <nreq> {<path> <method> <who> <any> {<value>}*nn}*nreq
    reg = ok | rej<i>        (Handle of route i panicked; no requests follow)
    who = r<i> | nr | anything else (panic, calls<n>, badinfo) = forbidden outcome
-   Output: SPECFAIL/MISMATCH <line>, followed by an INFO line naming the first failing request. *)
+   Output: on a failure the case is REDUCED to the table and the first failing request, itself a valid case
+   line, and printed as SPECFAIL/MISMATCH <reduced line>; the full line is also printed as "DRIFT <line>" only so
+   that the runner's extraction-vs-vm_compute cross-check knows that this sampled line is a failing one
+   (drift is always reported as 0 in STATS; no byte-level comparison exists for C04). *)
 let () =
   let cases = ref 0 and reqs = ref 0 and specfail = ref 0 and mismatch = ref 0 and rejected = ref 0
   and matched = ref 0 and noroute = ref 0 in
@@ -19,7 +22,14 @@ let () =
           | s -> incr rejected; Some (nat_of_int (int_of_string (String.sub s 3 (String.length s - 3)))) in
         let nn = int_of_string (next ()) in
         let names = List.init nn (fun _ -> bytes_of_hex (next ())) in
+        let hdr_end = !pos in
         let nreq = int_of_string (next ()) in
+        let reduced i =
+          if nreq = 0 then line else begin
+            let per = 4 + nn in
+            let hdr = Array.to_list (Array.sub a 0 hdr_end) in
+            let rq = Array.to_list (Array.sub a (hdr_end + 1 + i * per) per) in
+            String.concat " " ("E" :: hdr @ ["1"] @ rq) end in
         let qs = List.init nreq (fun _ ->
           let p = next () in let m = next () in let w = next () in let any = next () in
           let vals = List.init nn (fun _ -> bytes_of_hex (next ())) in
@@ -34,11 +44,11 @@ let () =
         (match check_case routes reg names qs with
          | (VOk, _) -> ()
          | (VSpecFail, i) ->
-             incr specfail; Printf.printf "SPECFAIL %s\n" line;
-             Printf.printf "INFO first failing request index=%d (0-based; registration if the table was rejected or has no requests)\n" (int_of_nat i)
+             incr specfail; Printf.printf "SPECFAIL %s\n" (reduced (int_of_nat i));
+             if nreq > 1 then Printf.printf "DRIFT %s\n" line
          | (VMismatch, i) ->
-             incr mismatch; Printf.printf "MISMATCH %s\n" line;
-             Printf.printf "INFO first mismatching request index=%d\n" (int_of_nat i))
+             incr mismatch; Printf.printf "MISMATCH %s\n" (reduced (int_of_nat i));
+             if nreq > 1 then Printf.printf "DRIFT %s\n" line)
     | _ -> ());
   Printf.printf "STATS cases=%d specfail=%d mismatch=%d drift=0 requests=%d matched=%d noroute=%d rejected_tables=%d\n"
     !cases !specfail !mismatch !reqs !matched !noroute !rejected
